@@ -11,7 +11,7 @@ produced; what is proved here, for all inputs, is
   * the register allocator invariant and limits (`frame_inv`, `frame_limits`,
     `frame_new_wrap_witness`, `frame_new_guarded`).
   * `compile_wf`: the C01 compiler core (`Model/Compile.lean`) emits code that `wfChunk` accepts.
-Helper lemmas: Lemmas/C05Codec.lean, C05Frame.lean, C05WF.lean, C05Sweep.lean, C05CompileWF.lean, C05CWBytes1-5.lean.
+Helper lemmas: Lemmas/C05Codec.lean, C05Frame.lean, C05WF.lean, C05Sweep.lean, C05CompileWF.lean, C05CWBytes1-5.lean, C05CWFits.lean, C05CWLoop1-7.lean.
 -/
 import KotoVerif.Lemmas.C05Codec
 import KotoVerif.Lemmas.C05Frame
@@ -20,6 +20,7 @@ import KotoVerif.Lemmas.C05Sweep
 import KotoVerif.Lemmas.C05CompileWF
 import KotoVerif.Lemmas.C05CWBytes5
 import KotoVerif.Lemmas.C05CWFits
+import KotoVerif.Lemmas.C05CWLoop7
 
 namespace KotoVerif.C05
 open KotoVerif.Gen KotoVerif.Bytecode KotoVerif.Frame
@@ -467,6 +468,39 @@ theorem compile_wf_main (e : Compile.Expr) (lc : Nat) (cidx : Int → Nat) (cons
     simp only [hcmp, hr] at h
     cases h
     exact hwf
+
+open KotoVerif.Compile in
+/-- **compile_wf_loops** (statement layer, `Model/CompileLoop.lean`): a main block of statements —
+expression statements, blocks, `if` / `if-else` with statement branches, `while` and `until` loops,
+arbitrarily nested — followed by a final expression, compiled by `compileProg` and encoded with
+`encodeProg` (forward skips and `JumpBack` distances turned into byte offsets), is accepted by
+`wfChunk`: the backward jump of every loop lands on the first instruction of its condition, the
+conditional exit jump on the instruction after the `JumpBack`. Not covered by this theorem (only by
+the translation validation of real chunks): `break` / `continue` and `loop` without a condition, which
+leave unreachable instructions behind (the `Jump` over an else branch after a then branch that ends in
+`break`, the code after an endless `loop`) — the proof technique here shows that `annotate` reaches
+every instruction. -/
+theorem compile_wf_loops (s : Compile.Stmt) (e : Compile.Expr) (lc : Nat) (flat : List Compile.LFlat)
+    (o : Compile.Out) (F2 : Compile.Frame) (cidx : Int → Nat) (consts : List CKind)
+    (h : compileProg s e lc = some (flat, o, F2)) (hs : SimpleS s) (hlc : lc ≤ 254)
+    (hsz : sizeOfL cidx flat ≤ 65535)
+    (hc : ∀ n, cidx n < 4294967296 ∧ consts[cidx n]? = some .int) :
+    ∃ r, o.reg = some r ∧ wfChunk (encodeProg cidx F2.registersUsed flat r) consts = true :=
+  wfChunk_compileProg s e lc flat o F2 cidx consts h hs hlc hsz hc
+
+open KotoVerif.Compile in
+/-- non-vacuity, evaluated in the kernel: `x0 = 0; while x0 < 300 { x0 += 1; if x0 == 7 { x1 = x0 }
+else { until x1 { x1 = true } } }; x0` compiles, is in the fragment, and its bytes are accepted -/
+theorem compile_wf_loops_instance :
+    (match compileProg
+        (.seq (.expr (.assign 0 (.int 0)))
+          (.loop (some (.cmp .lt (.var 0) (.int 300), false))
+            (.seq (.expr (.compound .add 0 (.int 1)))
+              (.ite (.cmp .eq (.var 0) (.int 7)) (.expr (.assign 1 (.var 0)))
+                (.loop (some (.var 1, true)) (.expr (.assign 1 (.bool true))))))))
+        (.var 0) 2 with
+      | some (flat, o, F2) => o.reg.any (fun r => wfChunk (encodeProg (fun _ => 0) F2.registersUsed flat r) [.int])
+      | none => false) = true := by decide
 
 open KotoVerif.Compile in
 /-- the flat-level facts behind it (registers, jump targets, frame size), for every expression -/
